@@ -732,7 +732,7 @@ func runStoreCase(o *drv.Out, lim *limiter, u *c08.Universe, ci int) {
 
 // Run is the C16 driver.
 func Run(o *drv.Out) {
-	progressDir = o.Dir
+	progressDir, progressOut = o.Dir, o
 	v := &Verifier{Timeout: 4e9}
 	defer v.Close()
 	lim := &limiter{o: o, seen: map[string]int{}}
